@@ -95,6 +95,15 @@ CLAIMS = {
              "(__Pyx_PyNumber_Long: floats are accepted through nb_int - observed, deliberate upstream behaviour, not claimed), "
              "__Pyx_PyIndex_AsSsize_t, enums, the Limited-API and non-PYLONG_INTERNALS configurations.",
         ref="4 C05"),
+    "C06": dict(
+        text="Proof in the theory of IEEE-754 floats (z3 Float64/Float32, fmod as an uninterpreted function constrained by the C11 "
+             "clauses and shared by subject and spec) that the ModFloat helper returns, for all finite operands with a non-zero "
+             "divisor, a value bit-identical (up to NaN payload) to CPython's float_rem - including the sign of a zero remainder. "
+             "Kernel: the float modulo helper only.",
+        note="Trusted: dv C front end, z3's FP theory, the C11 contract of fmod/copysign, the float_rem transcription (validated "
+             "against float.__mod__ each run). NOT covered: PyFloatBinop (object float arithmetic with constants), floor division of "
+             "doubles, float parsing (pyunicode_as_double: a string grammar, no contract within reach).",
+        ref="4 C06"),
     "C07": dict(
         text="Proof on the abstract CPython object model that __Pyx__PyNumber_PowerOf2 (the `2 ** n` fast path, taken from the C the "
              "working-tree compiler generates) returns either the exact int 2**n (n an exact non-negative int) or CPython's own "
